@@ -198,6 +198,13 @@ class Probe:
                                 and pyast.unparse(stmts[i].value) in ("cursor.fetchone()", "cursor.fetchall()"):
                             dst = stmts[i].targets[0].id
                             i += 1
+                        elif i < len(stmts) and isinstance(stmts[i], pyast.Assign) and len(stmts[i].targets) == 1 \
+                                and isinstance(stmts[i].targets[0], (pyast.Tuple, pyast.List)) \
+                                and pyast.unparse(stmts[i].value) == "cursor.fetchone()" and ev[0][1] == "RLookup":
+                            # the row is unpacked at once: raises TypeError when there is no row
+                            i += 1
+                            out.append("IS (SRead RFetch 7)")
+                            continue
                         if dst not in REGS:
                             raise ProbeError("read whose result goes to %r" % dst)
                         out.append("IS (SRead (%s) %d)" % (ev[0][1], REGS[dst]))
@@ -239,7 +246,7 @@ def db0(kind, pre):
     if kind == "fresh":
         return "(Some empty_db)"
     if kind == "existing":
-        return "(Some (Db TGood TGood true %s))" % cq_list([cq_nat(t) for t in pre])
+        return "(Some (Db TGood TGood true %s))" % cq_list(["(%s, %s)" % (cq_nat(t), cq_nat(a)) for t, a in pre])
     if kind == "wrong":
         return "(Some (Db TWrong TMissing false []))"
     if kind == "wrongmeta":
@@ -252,8 +259,8 @@ def sched_case(kind, calls, schedule, pre=()):
             "calls": calls, "schedule": list(schedule)}
 
 
-def call(text, init=True, upd=False):
-    return {"text": text, "init": init, "upd": upd}
+def call(text, init=True, upd=False, exp=30):
+    return {"text": text, "init": init, "upd": upd, "exp": exp}
 
 
 def directed():
@@ -262,10 +269,10 @@ def directed():
     for kind in KINDS:
         for ti in (0, 3):
             cs.append(sched_case(kind, [call(ti)], []))
-    cs.append(sched_case("existing", [call(0)], [], pre=[0]))                 # hit
-    cs.append(sched_case("existing", [call(0, upd=True)], [], pre=[0]))       # hit + last_hit update
-    cs.append(sched_case("existing", [call(1, init=False)], [], pre=[0]))     # already initialised, miss
-    cs.append(sched_case("existing", [call(0, init=False, upd=True)], [], pre=[0]))
+    cs.append(sched_case("existing", [call(0)], [], pre=[[0, 0]]))                 # hit
+    cs.append(sched_case("existing", [call(0, upd=True)], [], pre=[[0, 0]]))       # hit + last_hit update
+    cs.append(sched_case("existing", [call(1, init=False)], [], pre=[[0, 0]]))     # already initialised, miss
+    cs.append(sched_case("existing", [call(0, init=False, upd=True)], [], pre=[[0, 0]]))
     # (iii) the witness schedule of C02_refuted_deferred and its variants, on every non-garbage kind
     w = [0, 1, 0, 1, 0, 1, 0, 1, 0, 1]
     for kind in ("fresh", "wrong", "wrongmeta", "existing"):
@@ -274,9 +281,20 @@ def directed():
         cs.append(sched_case(kind, [call(0), call(1), call(0)], [0, 1, 2] * 8))
     # two inserters of the same text (INSERT OR REPLACE), reader holding SHARED while a writer commits
     cs.append(sched_case("existing", [call(0, init=False), call(0, init=False)], [0, 1] * 10))
-    cs.append(sched_case("existing", [call(0, init=False, upd=True), call(0, init=False, upd=True)], [0, 1] * 10, pre=[0]))
+    cs.append(sched_case("existing", [call(0, init=False, upd=True), call(0, init=False, upd=True)], [0, 1] * 10, pre=[[0, 0]]))
     cs.append(sched_case("existing", [call(1, init=False), call(0, init=False, upd=True), call(2)],
-                         [0, 0, 0, 1, 1, 1, 1, 0, 0, 1, 2, 2, 0, 1, 2], pre=[0]))
+                         [0, 0, 0, 1, 1, 1, 1, 0, 0, 1, 2, 2, 0, 1, 2], pre=[[0, 0]]))
+    # prune vs lookup: entries that are stale (> 1 day: last_hit is refreshed), nearly expired (20 days: kept by a
+    # 30-day caller, pruned by a 10-day caller) and expired (40 days); the pruning caller runs its whole start-up
+    # check after the other caller's lookup (4 attempts: connect, BEGIN, SELECT, COMMIT) / inside its UPDATE
+    for age, exp in ((40, 30), (20, 10), (20, 30), (2, 30)):
+        for k in (4, 5, 6, 7):
+            cs.append(sched_case("existing", [call(0, init=False), call(1, exp=exp)], [0] * k + [1] * 32 + [0] * 8,
+                                 pre=[[0, age]]))
+    cs.append(sched_case("existing", [call(0, exp=30), call(0, exp=10), call(2, init=False)],
+                         [0] * 20 + [1] * 22 + [2] * 3 + [0, 1] * 8, pre=[[0, 20], [2, 40]]))
+    cs.append(sched_case("existing", [call(0, exp=10)], [], pre=[[0, 20], [1, 2]]))
+    cs.append(sched_case("existing", [call(1, init=False)], [], pre=[[1, 2]]))
     return cs
 
 
@@ -288,13 +306,17 @@ def corrupt_cases():
 def random_case(rng):
     kind = rng.choice(["fresh", "fresh", "existing", "existing", "wrong", "wrongmeta"])
     n = rng.choice([2, 2, 3])
-    pre = [t for t in (0, 1) if rng.random() < 0.5] if kind == "existing" else []
+    pre = [[t, rng.choice([0, 0, 2, 20, 40])] for t in (0, 1, 2) if rng.random() < 0.5] if kind == "existing" else []
     calls = []
     for _ in range(n):
         ti = rng.choice([0, 0, 1, 2, 3])
         init = True if kind != "existing" else rng.random() < 0.5
-        calls.append(call(ti, init=init, upd=rng.random() < 0.4))
+        calls.append(call(ti, init=init, upd=rng.random() < 0.4, exp=rng.choice([30, 30, 10])))
     sched = []
+    if kind == "existing" and rng.random() < 0.5:
+        # let a call get past its lookup, then run another one for a long stretch (its start-up prune)
+        a = rng.randrange(n)
+        sched += [a] * rng.randint(3, 8) + [rng.choice([x for x in range(n) if x != a])] * rng.randint(20, 32)
     for _ in range(rng.randint(4, 14)):
         sched += [rng.randrange(n)] * rng.randint(1, 5)
     return sched_case(kind, calls, sched, pre)
@@ -314,6 +336,13 @@ def judge_sched(c, r):
         return "harness/child failure: %s" % (r,)
     if r.get("undrained"):
         return "calls did not terminate (deadlock or livelock under the drained schedule)"
+    # statement-level observable: parse() absorbs sqlite3.DatabaseError (uncached fall-back, a7369f2), so a lock
+    # error no longer reaches the caller - the proxied sqlite3 inside pymoca.parser still sees it
+    for o in r["trace"]:
+        if o[2] in ("busy", "err") or (o[2] == "fail" and c["kind"] != "corrupt"):
+            return "call %d: statement %s inside parse() raised (%s)%s" % (
+                o[0], o[1], "database is locked, at once" if o[2] == "busy" else o[2],
+                "" if (r["results"][o[0]] or ["?"])[0] != "ok" else "; absorbed by the uncached fall-back")
     for i, (res, want) in enumerate(zip(r["results"], r["want"])):
         if res is None or res[0] != "ok":
             return "call %d raised %s" % (i, res)
@@ -324,9 +353,14 @@ def judge_sched(c, r):
     f = r["final"]
     if not f["exists"] or f["integrity"] != "ok":
         return "database afterwards: exists=%s integrity=%s" % (f["exists"], f["integrity"])
-    need = sorted({cl["text"] for cl in c["calls"] if TEXTS[cl["text"]][1]} | set(c["pre"]))
-    if f["rows"] != need:
-        return "cache rows afterwards %s, expected %s (cache not used or entries lost)" % (f["rows"], need)
+    # rows: every successfully parsed text and every pre-populated entry, except that an entry older than the
+    # shortest expiration of an initialising (= pruning) call may legitimately be gone
+    exps = [cl.get("exp", 30) for cl in c["calls"] if cl["init"]]
+    prunable = {t for t, a in c["pre"] if exps and a > min(exps)}
+    allrows = {cl["text"] for cl in c["calls"] if TEXTS[cl["text"]][1]} | {t for t, _a in c["pre"]}
+    if not (allrows - prunable <= set(f["rows"]) <= allrows):
+        return "cache rows afterwards %s, expected %s minus possibly %s (cache not used or entries lost)" % (
+            f["rows"], sorted(allrows), sorted(prunable))
     return None
 
 
@@ -383,19 +417,22 @@ OUT = {"done": "ODone", "blocked": "OBlocked", "busy": "OBusy", "fail": "OFail",
 
 
 def encode_sched(c, r, progname):
-    pars = cq_list(["Par %s %s %s %s" % (cq_nat(cl["text"]), cq_bool(cl["init"]), cq_bool(cl["upd"]),
-                                         cq_bool(TEXTS[cl["text"]][1])) for cl in c["calls"]])
+    pars = cq_list(["Par %s %s %s %s %s" % (cq_nat(cl["text"]), cq_bool(cl["init"]), cq_bool(cl["upd"]),
+                                            cq_bool(TEXTS[cl["text"]][1]), cq_nat(cl.get("exp", 30)))
+                    for cl in c["calls"]])
     obs = cq_list(["(%s, %s, %s)" % (cq_nat(o[0]), KIND.get(o[1], "KNone"), OUT[o[2]]) for o in r["trace"]])
     st = []
-    for res in r["results"]:
-        if res is None:
-            st.append(0)
-        elif res[0] == "ok":
-            st.append(1)
-        elif "locked" in (res[2] if len(res) > 2 else ""):
+    for i, res in enumerate(r["results"]):
+        # status of the call INSIDE parse() (the fall-back wrapper hides DatabaseErrors from the caller)
+        outs = [o[2] for o in r["trace"] if o[0] == i]
+        if "busy" in outs:
             st.append(2)
-        else:
+        elif "err" in outs or (res is not None and res[0] != "ok"):
             st.append(3)
+        elif res is None:
+            st.append(0)
+        else:
+            st.append(1)
     return "(%s, %s, %s, %s, %s, %s, %s)" % (
         progname, db0(c["kind"], c["pre"]), pars, cq_list([cq_nat(x) for x in r["effective"]]), obs,
         cq_list([cq_nat(x) for x in st]), cq_list([cq_nat(x) for x in r["final"]["rows"]]))
